@@ -285,6 +285,16 @@ func (g *Gen) doRoot(name string, body bool) *RowOut {
 	row := &RowOut{Name: name, Body: body, Masks: map[string][][]int{}}
 	seen := map[string]bool{}
 	g.versionConstants(name, seen, &row.VMax)
+	// a body whose version() is a constant exists in that version only
+	if vf := g.pkg.Methods[name+".version"]; vf != nil && len(vf.Body.List) == 1 {
+		if rs, ok := vf.Body.List[0].(*ast.ReturnStmt); ok && len(rs.Results) == 1 {
+			if tv, ok := g.pkg.Info.Types[rs.Results[0]]; ok && tv.Value != nil {
+				if c, ok := constInt(tv); ok {
+					row.VMin, row.VMax = c, c
+				}
+			}
+		}
+	}
 	row.Untrusted = strings.HasSuffix(name, "Response") || !body
 	row.Enc = g.walkSide(name, "enc", row)
 	row.Dec = g.walkSide(name, "dec", row)
@@ -376,7 +386,7 @@ func (g *Gen) walkSide(name, side string, row *RowOut) (res SideResult) {
 	res.Visited = map[string]bool{}
 	tobj := g.pkg.Types.Scope().Lookup(name)
 	typ := tobj.Type()
-	for v := int64(0); v <= row.VMax; v++ {
+	for v := row.VMin; v <= row.VMax; v++ {
 		nodes, w, err := g.walkOnce(fd, typ, name, side, v, row)
 		if err != "" {
 			return SideResult{Reason: fmt.Sprintf("v%d: %s", v, err)}
@@ -392,7 +402,7 @@ func (g *Gen) walkSide(name, side string, row *RowOut) (res SideResult) {
 }
 
 func (g *Gen) walkOnce(fd *ast.FuncDecl, typ types.Type, name, side string, v int64, row *RowOut) (nodes []*Node, w *W, errs string) {
-	w = &W{g: g, side: side, ver: v, env: map[types.Object]SVal{}, known: map[string]int64{}, label: name, visited: map[string]bool{}}
+	w = &W{g: g, side: side, ver: v, env: map[types.Object]SVal{}, known: map[string]int64{}, knownVer: map[string]bool{}, label: name, visited: map[string]bool{}}
 	root := w.newObj("recv", typ)
 	w.root = root
 	w.out = &nodes
@@ -413,6 +423,7 @@ func (g *Gen) walkOnce(fd *ast.FuncDecl, typ types.Type, name, side string, v in
 			row.VerField = p.path
 			if side == "enc" {
 				w.known[p.key()] = v
+				w.knownVer[p.key()] = true
 			}
 		}
 	}
@@ -524,14 +535,14 @@ func countRemaining(g *Gen, m string) int {
 
 // ---------------------------------------------------------------- Coq output
 
-func gateChain(byVer map[int64][]*Node, vmax int64) string {
+func gateChain(byVer map[int64][]*Node, vmin, vmax int64) string {
 	// merge runs of versions with the same format: FGate (version <= hi) F rest
 	type run struct {
 		hi  int64
 		coq string
 	}
 	var runs []run
-	for v := int64(0); v <= vmax; v++ {
+	for v := vmin; v <= vmax; v++ {
 		c := seqCoq(byVer[v])
 		if len(runs) > 0 && runs[len(runs)-1].coq == c {
 			runs[len(runs)-1].hi = v
@@ -567,11 +578,11 @@ func (g *Gen) writeCoq(path string, rows []*RowOut, cfg PrimCfg) {
 		fmt.Fprintf(&sb, "Definition z_%s : value := %s.\n", id, g.zeroOf(typ, 0).Coq())
 		enc, dec := "None", "None"
 		if r.Enc.OK {
-			fmt.Fprintf(&sb, "Definition fe_%s : fmt :=\n  %s.\n", id, gateChain(r.Enc.ByVer, r.VMax))
+			fmt.Fprintf(&sb, "Definition fe_%s : fmt :=\n  %s.\n", id, gateChain(r.Enc.ByVer, r.VMin, r.VMax))
 			enc = "(Some fe_" + id + ")"
 		}
 		if r.Dec.OK {
-			fmt.Fprintf(&sb, "Definition fd_%s : fmt :=\n  %s.\n", id, gateChain(r.Dec.ByVer, r.VMax))
+			fmt.Fprintf(&sb, "Definition fd_%s : fmt :=\n  %s.\n", id, gateChain(r.Dec.ByVer, r.VMin, r.VMax))
 			dec = "(Some fd_" + id + ")"
 		}
 		ver := "None"
